@@ -33,7 +33,8 @@ type WriteDecision struct {
 	// GateAfter makes the call block after Accept bytes went out; when the
 	// connection gets closed meanwhile the call fails with the partial count,
 	// otherwise the remainder is accepted once the gate opens (or, with Then
-	// "timeout", the call reports an expiry with the partial count).
+	// "timeout", the call reports an expiry with the partial count; with Then
+	// "error" a hard failure with the partial count).
 	GateAfter string
 }
 
@@ -247,6 +248,15 @@ func (c *Conn) Write(p []byte) (int, error) {
 			c.OutFaults++
 			w.cond.Broadcast()
 			return n, &net.OpError{Op: "write", Net: "sim", Err: &timeoutError{"write"}}
+		}
+		if d.Then == "error" {
+			// the connection fails while the remainder is still to go out
+			err := &net.OpError{Op: "write", Net: "sim", Err: ErrInjected}
+			c.broken = err
+			c.OutFaults++
+			w.log(Event{Kind: "write", Conn: c.Idx, Off: len(c.Out), Err: "error"})
+			w.cond.Broadcast()
+			return n, err
 		}
 		p2 := p[n:]
 		off = len(c.Out)
